@@ -288,6 +288,10 @@ pub fn sites(tier: Tier) -> Vec<Site> {
                 for delta in 0..3u8 {
                     cases.push((di, w, delta));
                 }
+                // (... and a nanosecond or three either side: Duration counts nanoseconds, the wire does not)
+                for delta in 5..8u8 {
+                    cases.push((di, w, delta));
+                }
             }
             // beyond the range
             for over in [max + 1, max + 2, max * 2, max * 10 + 7, 1 << 40, u64::MAX / 20] {
@@ -303,7 +307,7 @@ pub fn sites(tier: Tier) -> Vec<Site> {
         let (dfs, kinds) = (dfs.clone(), kinds.clone());
         let n = cases.len() as u64;
         sites.push(Site::new("time-typed", n,
-            "every time field x boundary wire values w x durations {w*res, w*res + 1us, (w+1)*res - 1us} (must floor to w) and durations beyond the field's range (must be refused)",
+            "every time field x boundary wire values w x durations {w*res, w*res + 1us, (w+1)*res - 1us, w*res + 1ns, (w+1)*res - 1ns, (w+1)*res - 3ns} (must floor to w) and durations beyond the field's range (must be refused)",
             move |i, acc| {
                 let (di, w, delta) = cases[i as usize];
                 let d = &dfs[di];
@@ -317,7 +321,12 @@ pub fn sites(tier: Tier) -> Vec<Site> {
                 let Ok(Ok(Some(mut p))) = guard(|| codec.decode(&mut buf)) else { return };
                 let base_us = (w as u128) * (d.res_ms as u128) * 1000;
                 let us = match delta { 0 | 3 => base_us, 1 => base_us + 1, _ => base_us + (d.res_ms as u128) * 1000 - 1 };
-                let dur = if delta == 4 { huge_durations(d.res_ms)[w as usize] } else { Duration::new((us / 1_000_000) as u64, ((us % 1_000_000) * 1000) as u32) };
+                let dur = if delta == 4 { huge_durations(d.res_ms)[w as usize] } else if delta >= 5 {
+                    let base_ns = base_us * 1000;
+                    let unit_ns = (d.res_ms as u128) * 1_000_000;
+                    let ns = match delta { 5 => base_ns + 1, 6 => base_ns + unit_ns - 1, _ => base_ns + unit_ns - 3 };
+                    Duration::new((ns / 1_000_000_000) as u64, (ns % 1_000_000_000) as u32)
+                } else { Duration::new((us / 1_000_000) as u64, ((us % 1_000_000) * 1000) as u32) };
                 let delta = if delta == 4 { 3 } else { delta };
                 if !(d.set)(&mut p, dur) { return; }
                 let label = format!("{}.{} = {dur:?}", d.kind, d.field);
